@@ -153,7 +153,9 @@ class CSSCharsetRule(cssrule.CSSRule):
             )
         else:
             try:
-                codecs.lookup(encoding)
+                # "css" is the codec which reads this rule, not an encoding
+                if codecs.lookup(encoding).name == 'css':
+                    raise LookupError()
             except LookupError:
                 self._log.error(
                     'CSSCharsetRule: Unknown (Python) encoding %r.' % encoding
